@@ -692,6 +692,75 @@ def remove_unregistered_cells(ctx):
                 ctx.outcome("after-removal-silent")
 
 
+def signature_cells(ctx):
+    """every supported handler signature (0..4 arguments) follows a
+    re-assigned link the same way"""
+    def mk(nargs, calls):
+        if nargs == 0:
+            def h():
+                calls.append(1)
+        elif nargs == 1:
+            def h(new):
+                calls.append(1)
+        elif nargs == 2:
+            def h(name, new):
+                if name == "value":
+                    calls.append(1)
+        elif nargs == 3:
+            def h(obj, name, new):
+                if name == "value":
+                    calls.append(1)
+        else:
+            def h(obj, name, old, new):
+                if name == "value":
+                    calls.append(1)
+        return h
+    for name in ("child.value", "child:value", "child.child.value"):
+        for nargs in range(5):
+            ctx.case({"signature": nargs, "name": name})
+            ctx.ev()
+            pool = G.make_pool()
+            root, n1, n2 = pool
+            extra = type(root)()
+            n1.child = extra
+            root.child = n1
+            calls = []
+            h = mk(nargs, calls)
+            root.on_trait_change(h, name)
+            root.child = n2             # n1 (and extra) are detached
+            n2.child = type(root)()
+            leafs = {"child.value": (n1, n2), "child:value": (n1, n2),
+                     "child.child.value": (extra, n2.child)}[name]
+            good = True
+            for o, exp in zip(leafs, (0, 1)):
+                calls.clear()
+                ctx.tr()
+                o.value += 1
+                if len(calls) != exp:
+                    good = False
+                    ctx.violation(
+                        "C16:signature:%d-args" % nargs,
+                        "%s with a %d-argument handler: after the link was "
+                        "re-assigned a change of the %s object gave %d "
+                        "call(s), expected %d" % (
+                            name, nargs, "detached" if exp == 0 else "new",
+                            len(calls), exp),
+                        history=[["signature", nargs, name]])
+                    break
+            if not good:
+                continue
+            root.on_trait_change(h, name, remove=True)
+            calls.clear()
+            for o in leafs:
+                o.value += 1
+            if calls:
+                ctx.violation("C16:signature:%d-args:after-removal" % nargs,
+                              "handler still called after removal",
+                              history=[["signature", nargs, name]])
+            else:
+                ctx.outcome("after-removal-silent")
+
+
 UI_Q = []
 
 
@@ -738,7 +807,7 @@ def ui_threaded(ctx):
 def shards(tier):
     out = [{"pair": "__decorated__"}, {"pair": "__ui_threaded__"},
            {"pair": "__name_list__"}, {"pair": "__dict_name__"},
-           {"pair": "__remove_unregistered__"}]
+           {"pair": "__remove_unregistered__"}, {"pair": "__signature__"}]
     for pair in PAIRS:
         n = len(menu(pair))
         for i in range(n):
@@ -768,6 +837,10 @@ def run_shard(ctx, shard, tier):
         return
     if pair == "__remove_unregistered__":
         remove_unregistered_cells(ctx)
+        ctx.depth_completed = 1
+        return
+    if pair == "__signature__":
+        signature_cells(ctx)
         ctx.depth_completed = 1
         return
     evs = menu(pair)
@@ -803,6 +876,11 @@ def replay(rec):
     from mc.ctx import Ctx
     ctx = Ctx("C16", None, "quick", 0)
     c = rec.get("case") or rec
+    if "signature" in c:
+        signature_cells(ctx)
+        for v in ctx.violations.values():
+            print("  violation:", v["sig"], v["msg"])
+        return not ctx.violations
     if c.get("dict_name") or c.get("remove_unregistered"):
         (dict_name_cells if c.get("dict_name")
          else remove_unregistered_cells)(ctx)
